@@ -283,6 +283,30 @@ func lifeImpl(line string) string {
 			e.mc.feed(packetize(wDone(0xFD, 0, 0, 0), nil, 4, 0))
 		}
 		return watchdog(wd, func() string { ch.Close(); return "close=ok" })
+	case "close-errors":
+		// <nerr> packets the channel cannot parse (a ROW without format: one queued error each),
+		// abandoned; then Close
+		chid, nerr := arg(2), arg(3)
+		e := newLifeEnv(100)
+		defer e.conn.VerifCancel()
+		ch := e.conn.VerifNewChannel(chid)
+		for i := 0; i < nerr; i++ {
+			body := []byte{0xD1, 1, 2, 3}
+			hdr := []byte{4, 1, 0, byte(len(body) + 8), byte(chid >> 8), byte(chid), 0, 0}
+			e.mc.feed(append(hdr, body...))
+		}
+		for i := 0; i < 300; i++ {
+			_, ne := ch.VerifQueued()
+			if ne >= nerr || ne >= 10 {
+				break
+			}
+			time.Sleep(time.Millisecond)
+		}
+		time.Sleep(10 * time.Millisecond)
+		if chid == 0 {
+			e.mc.feed(packetize(wDone(0xFD, 0, 0, 0), nil, 4, 0))
+		}
+		return watchdog(wd, func() string { ch.Close(); return "close=ok" })
 	case "reader-exit":
 		nerr := arg(2)
 		g0 := runtime.NumGoroutine()
@@ -317,7 +341,7 @@ func lifeOracle(line, out string) string {
 	}
 	if strings.Contains(out, "blocked") {
 		switch f[1] {
-		case "close-pending", "closed-ops", "double-close", "conn-close", "reader-exit":
+		case "close-pending", "close-errors", "closed-ops", "double-close", "conn-close", "reader-exit":
 			return "Close returns in bounded time whatever the state of the receive queue and the peer"
 		}
 		return "a call with a cancelled context returns promptly"
@@ -425,6 +449,11 @@ func init() {
 			}
 			for _, n := range []int{0, 3, 10} {
 				emit(Case{Line: fmt.Sprintf("life reader-exit %d", n), Kind: "reader-exit"})
+			}
+			for _, n := range []int{0, 1, 9, 10, 11, 12, 15, 25} {
+				for _, c := range []int{0, 3} {
+					emit(Case{Line: fmt.Sprintf("life close-errors %d %d", c, n), Kind: "close-errors"})
+				}
 			}
 		},
 		Impl:   lifeImpl,
